@@ -178,8 +178,9 @@ def run(ck, m):
     dl = acc["deleter"]
     sts = [st for t, st in stores_in(ast.Module(body=dl.body, type_ignores=[]))]
     ck.ob("R5", dl, len(sts) == 1 and norm(sts[0]) == "__class__._native_anim_max_bytes = __class__.__native_anim_max_bytes", "deleter must restore the private default into the global cell", stmt="native_anim_max_bytes deleter")
-    for rel, f in m.files.items():
-        for t, st in stores_in(f.tree, local=False):
+    for rel, _q, t, st in m.stores():
+
+        if True:
             if isinstance(t, ast.Attribute) and t.attr == "_native_anim_max_bytes" and norm(t.value) != "__class__":
                 ck.ob("R5", st, False, f"`{norm(t)}` creates a second cell for the global native-animation limit", stmt=f"{rel}: {short(st, 70)}")
     iasg = next((s for s in m.get(IT, "ITerm2Image").body if isinstance(s, ast.Assign) and norm(s.targets[0]) == "native_anim_max_bytes"), None)
